@@ -139,6 +139,19 @@ SignAttemptsEv ==
          badi == { i \in 1 .. n : ~AttemptOK(Ev.attempts[i], i, n) }
      IN Finish(0, n >= 1 /\ badi = {}, [bad_attempts |-> badi, attempts |-> Ev.attempts])
 
+\* ---- Sampler: one output of a pseudorandom sampler of Section 7.3 (through the hooks)
+SamplerOut(f, seed) ==
+  CASE f = "rej_bounded"    -> RejBoundedPoly(seed)
+    [] f = "rej_ntt"        -> RejNTTPoly(seed)
+    [] f = "sample_in_ball" -> CenterPoly(SampleInBall(seed))
+    [] f = "expand_mask"    -> BitUnpack(H(seed, NB * ZBITS), GAMMA1 - 1, GAMMA1)
+SamplerEv ==
+  /\ Is("Sampler")
+  /\ \/ Go(0, 1, [p |-> SamplerOut(Ev.fn, Ev.seed)])
+     \/ Finish(1, \A n \in Idx : Ev.out[n + 1] = st.p[n], [fn |-> Ev.fn, xof_bytes |-> Ev.xof_bytes])
+\* ---- SweepF: a native sweep whose every failing case is also in this trace as a full event
+SweepFEv == Is("SweepF") /\ Finish(0, Ev.cases > 0 /\ Ev.failures = 0, [what |-> Ev.what, failures |-> Ev.failures])
+
 \* ---- Same: two observations that the specification says are one value (determinism)
 SameEv == Is("Same") /\ Finish(0, Ev.a = Ev.b, [what |-> Ev.what])
 
@@ -151,7 +164,7 @@ DoneEv == /\ l = Len(tr) + 1 /\ pc = 0
           /\ TLCSet(1, l)
           /\ pc' = 99 /\ step' = step + 1 /\ UNCHANGED << tr, l, st, bad >>
 
-Next == KeyGenEv \/ KeyGenLiteEv \/ KeyGenBothEv \/ SignEv \/ SignFactorEv \/ SignAttemptsEv \/ SameEv \/ VerifyEv \/ FormatEv
+Next == KeyGenEv \/ KeyGenLiteEv \/ KeyGenBothEv \/ SignEv \/ SignFactorEv \/ SignAttemptsEv \/ SamplerEv \/ SweepFEv \/ SameEv \/ VerifyEv \/ FormatEv
         \/ PanicEv \/ DoneEv
 Spec == Init /\ [][Next]_vars
 
